@@ -40,16 +40,15 @@ func m_WithTimeout(parent context.Context, d time.Duration) (context.Context, co
 
 //vp:model context.WithDeadline
 func m_WithDeadline(parent context.Context, d time.Time) (context.Context, context.CancelFunc) {
-	left := d.Sub(modelEpoch) - time.Duration(vp.Now())
+	left := d.Sub(m_Now())
 	c := &hCtx{done: vp.DoneChan(int64(left)), deadline: vp.Now() + int64(left), has: true}
 	return c, func() { c.cancelled++ }
 }
 
-// The wall clock is the model clock, counted from a fixed instant.
-var modelEpoch = time.Unix(1700000000, 0)
-
+// The wall clock is the model clock.
+//
 //vp:model time.Now
-func m_Now() time.Time { return modelEpoch.Add(time.Duration(vp.Now())) }
+func m_Now() time.Time { return vp.ClockTime(vp.Now()) }
 
 //vp:model time.Since
 func m_Since(t time.Time) time.Duration { return m_Now().Sub(t) }
